@@ -11,6 +11,20 @@ from harness import common
 from harness.common import Collector
 from harness import taint_gen as tg
 
+def _cleaning(fn):
+    """shard functions run in pool workers that are terminated, not exited: remove the scratch directory here"""
+    import functools
+
+    @functools.wraps(fn)
+    def wrapper(arg):
+        try:
+            return fn(arg)
+        finally:
+            from harness import lianrun
+            lianrun.cleanup_scratch()
+    return wrapper
+
+
 ID = "C10"
 
 RULE = ("python projects of 1-3 files rendered from chain specs (<= 3 source sites, <= 3 sink sites; source kinds call / "
@@ -451,6 +465,7 @@ def json_crosscheck(col, case, ev):
                         "taint_data_flow.json lists %s, find_flows returned %s" % (sorted(jf), sorted(lr["flows"])), slim(case))
 
 
+@_cleaning
 def sweep_shard(arg):
     items, avoid = arg
     col = Collector()
@@ -519,6 +534,7 @@ def combo_blocked(case, combos):
     return None
 
 
+@_cleaning
 def random_shard(arg):
     seed, n_examples, avoid, combos, uniq = arg
     import hypothesis
@@ -622,6 +638,7 @@ def replay(path):
     return 0
 
 
+@_cleaning
 def replay_shard(paths):
     col = Collector()
     failed = set()
